@@ -56,6 +56,65 @@ Order(db, query, script) ==
 
 Covering(db, o, r) == SelectSeq(o, LAMBDA i : r \in db[i].runes)
 
+(* ---------------------------------------------------------------------------------------------- *)
+(* The same priority with family substitution. The substitution tables themselves (a port of the   *)
+(* fontconfig configuration) are not specified here: their result for the current query and script *)
+(* is a FACT supplied with each observation,                                                        *)
+(*   cr : set of <<family, score, strong>> - the expanded family list restricted to the families     *)
+(*        of the map (for a query without substitutes: the queried families, score = position,      *)
+(*        strong);                                                                                  *)
+(*   gen : for each generic family keyword of the query, <<keyword, set of <<family, score, strong>> >> *)
+(* What IS specified is how the library must use them (documented at scoredFootprints.Less):        *)
+(* strong substitutes before weak ones; among strong ones by score; among weak ones the fonts       *)
+(* supporting the current script first, then by score; fonts matched only through the script come   *)
+(* after every family match; ties: non-"mono" families first, then TrueType files, then insertion   *)
+(* order.                                                                                          *)
+MaxScore == 1000000
+Entry(cr, fam) == IF \E t \in cr : t[1] = fam THEN CHOOSE t \in cr : t[1] = fam ELSE << fam, MaxScore, FALSE >>
+InCrible(cr, fam) == \E t \in cr : t[1] = fam
+HasScript(db, i, script) == script # "none" /\ script \in db[i].scripts
+Mono(db, i) == db[i].mono
+TieLess(db, i, j) == IF Mono(db, i) # Mono(db, j) THEN ~Mono(db, i)
+                     ELSE IF db[i].ttf # db[j].ttf THEN db[i].ttf
+                     ELSE FALSE
+ScoreLess(db, si, sj, i, j) == IF si # sj THEN si < sj ELSE TieLess(db, i, j)
+LessC(db, cr, script, i, j) ==
+  LET ei == Entry(cr, db[i].fam)
+      ej == Entry(cr, db[j].fam)
+  IN IF ei[3] # ej[3] THEN ei[3]
+     ELSE IF ei[3] THEN ScoreLess(db, ei[2], ej[2], i, j)
+     ELSE IF HasScript(db, i, script) # HasScript(db, j, script) THEN HasScript(db, i, script)
+     ELSE ScoreLess(db, ei[2], ej[2], i, j)
+(* stable sort of a set of indices: ties keep insertion order *)
+LessT(db, cr, script, i, j) == LessC(db, cr, script, i, j) \/ (~LessC(db, cr, script, j, i) /\ i < j)
+RECURSIVE SortIdx(_, _, _, _)
+SortIdx(db, cr, script, S) ==
+  IF S = {} THEN << >>
+  ELSE LET m == CHOOSE i \in S : \A j \in S \ {i} : LessT(db, cr, script, i, j)
+       IN << m >> \o SortIdx(db, cr, script, S \ {m})
+Selected(db, cr, script) == SortIdx(db, cr, script, {i \in 1..Len(db) : InCrible(cr, db[i].fam) \/ HasScript(db, i, script)})
+
+IsGenericIn(gen, fam) == \E g \in gen : g[1] = fam
+GenCrible(gen, fam) == (CHOOSE g \in gen : g[1] = fam)[2]
+(* a generic keyword stands for the first (best) concrete family found for it *)
+GenericMembers(db, gen, fam) ==
+  LET s == Selected(db, GenCrible(gen, fam), "none")
+  IN IF Len(s) = 0 THEN << >> ELSE SelectSeq(s, LAMBDA i : db[i].fam = db[s[1]].fam /\ \A k \in 1..Len(s) : (s[k] = i => \A h \in 1..k : db[s[h]].fam = db[s[1]].fam))
+RECURSIVE ExactStepC(_, _, _, _)
+ExactStepC(db, fams, q, gen) ==
+  IF fams = << >> THEN << >>
+  ELSE LET f == Head(fams)
+           members == IF IsGenericIn(gen, f) THEN GenericMembers(db, gen, f)
+                      ELSE Selected(db, {<< f, 0, TRUE >>}, "none")
+           c == NarrowSeq(db, members, q)
+       IN (IF Len(c) = 0 THEN << >> ELSE << c[1] >>) \o ExactStepC(db, Tail(fams), q, gen)
+FallbackStepC(db, query, script, cr) == NarrowSeq(db, Selected(db, cr, script), query.asp)
+OrderC(db, query, script, cr, gen) ==
+  ExactStepC(db, query.fams, query.asp, gen) \o FallbackStepC(db, query, script, cr) \o ManualStep(db, query) \o ScriptStep(db, script)
+AllowedC(db, query, script, cr, gen, r) ==
+  LET c == Covering(db, OrderC(db, query, script, cr, gen), r)
+  IN IF Len(c) > 0 THEN {c[1]} ELSE 1..Len(db)
+
 (* allowed answers for rune r *)
 Allowed(db, query, script, r) ==
   LET c == Covering(db, Order(db, query, script), r)
